@@ -85,6 +85,7 @@ MAP = [
  ("Tundra writer adds 8 to the foreground of every bold cell", "C05", "Tundra: cell 'A' fg 11 with the bold flag is written with the colour of palette entry 19 (black / a foreign colour) instead of bright cyan"),
  ("CSI S / T / SP @ / SP A scroll by their count in one pass", "C03", "16-byte .ans file 'ESC[65535;1Hx ESC[25S' (likewise T, 80 SP @, 80 SP A): the picture is 65535 rows tall and each of the 25 (80) steps passed over all of it: 1.3e8 cell writes, 1.5-6 s for a 16-byte input (found by the tall-file specials added after one C02 case needed 60 CPU-seconds)"),
  ("IcyDraw loader allocates rows at any layer width the file declares", "C03", "small.icy with the layer width field of the LAYER_0 chunk set to 0x7F000028 (any of 0x7FFF.. / 0xFFFF.. / 2^31-1 at payload offset 37..40): Layer::set_char allocates a row of that width for the first cell, 68 GB requested, abort (found when the header-field class was made to plant its values inside the chunks of the PNG instead of into the PNG bytes)"),
+ ("IcyDraw loader drops the continuation chunks of hidden, locked and alpha-locked layers", "C07", "document with one hidden + locked layer of 400 x 494 long-form cells (3.03 MB of cell data, beyond the 200 x 120 of the property's quantifier - found while exploring past the domain, the class is not part of the check): rows 487.. come back invisible"),
  ("RIP button drawing visits every pixel of a button far larger", "C20", "!|R|1BZD00XMFZRLZ5|1U: about ten million put_pixel calls for one button"),
 ]
 
